@@ -38,6 +38,8 @@ package flows
 //@   loop 0 invariant f.cfg.MaxCertSize == 0 ==> currentCert == fullCert
 //@   loop 0 invariant fullCert.FromBlock == old(fullCert.FromBlock) && fullCert.ToBlock == old(fullCert.ToBlock) && fullCert.Bridges == old(fullCert.Bridges) && fullCert.Claims == old(fullCert.Claims)
 //@   loop 0 decreases currentCert.ToBlock - currentCert.FromBlock
+// the cut is the largest one that fits: the range is shortened by exactly one block per iteration, from the end
+//@   loop 0 step currentCert.ToBlock + 1 == old(currentCert.ToBlock) && currentCert.FromBlock == old(currentCert.FromBlock)
 
 // ---- certificate chain arithmetic (C02): next height, previous LER, next first block
 
